@@ -17,6 +17,8 @@ LEVEL = "other"
 def run(chk):
     cfgs = ["base", "z"] if chk.tier == "quick" else ["base", "z", "hi", "z+hi"]
     chk.configs = cfgs
+    chk.rule("POLY.measure", "GetClosestPointOnSegment (used to pull an out-of-scanbeam intersection back onto a nearly horizontal edge), CrossProduct, DotProduct, "
+             "DistanceSqr, PerpendicDistFromLineSqrd equal their defining real-number formulas")
     chk.rule("WRAP.no-passthrough", "Intersect / Union / Difference / Xor / BooleanOp never hand one of their path parameters back as the result (unless known "
              "empty): the result is what the sweep produced under the fill rule")
     chk.rule("FLOAT.double-only", "no float-typed expression and no single-precision math function in any library function")
@@ -41,6 +43,7 @@ def run(chk):
         from ..engines import e8_scale as _e8
         _e8.rule_no_passthrough(db, chk, cfg)
         e14.rule_topx(db, chk, cfg)
+        e14.rule_measure(db, chk, cfg)       # GetClosestPointOnSegment: the other correction of an out-of-scanbeam intersection
         rec = db.record("Active")
         for fd in rec.fields:
             if fd.get("name") in ("wind_cnt", "wind_cnt2"):
